@@ -15,7 +15,7 @@ The physical causes (map seeds, scheduler, CPU count) are exercised by the `det`
 -/
 import Acme.Core.Det
 import Acme.Proofs.Det
-import Acme.Proofs.Sites
+import Acme.Proofs.SitesIter
 
 namespace Acme.Props.C15
 open Acme.Det
@@ -54,6 +54,7 @@ theorem C15_tiebreak_needed :
 
 /-! Non-vacuity -/
 example : exportInt id [⟨2, "b", 0⟩, ⟨1, "z", 1⟩, ⟨2, "a", 2⟩] = [⟨1, "z", 1⟩, ⟨2, "a", 2⟩, ⟨2, "b", 0⟩] := by
-  decide
+  -- proof script only (statement unchanged): `decide` cannot unfold the well-founded `List.mergeSort`
+  simp [exportInt, List.mergeSort, List.MergeSort.Internal.splitInTwo, leInt]
 
 end Acme.Props.C15
